@@ -158,8 +158,8 @@ class SimTransport(asyncio.Transport):
 class Net:
     """One simulated device endpoint + the patched seams.  A fresh transport per connection."""
 
-    def __init__(self, loop: SimLoop | None = None):
-        self.loop = loop or install()
+    def __init__(self, loop: SimLoop | None = None, base=0.0):
+        self.loop = loop or install(base)
         self.resolve_futs: list[asyncio.Future] = []
         self.sock_futs: list[asyncio.Future] = []
         self.transports: list[SimTransport] = []
